@@ -126,6 +126,13 @@ def jobs(tier, seed):
                               cls=cls_name, opts={'raises': 'min', 'fold': False, 'discards': ('none',)}, dev_bound=6 if not th else 7))
     for cls_name, plan in SPLIT.items():
         out.append(_j('split-two-halves', kind='split', cls=cls_name, plan=plan))
+    # eight-handed stud: seventh street with and without a fold (own down card from deck + reserve vs one community card)
+    for cls_name, spec in V.VARIANTS.items():
+        if spec[7] == 'bring_in':
+            p = params_for(cls_name, 2, 4, 8)
+            p['raw_starting_stacks'] = (60,) * 8
+            out.append(_j(f'stud-8-handed-{spec[0] or cls_name}', {'game': cls_name, 'autos': 'ALL', 'p': p}, kind='dynamic', cls=cls_name,
+                          opts={'raises': 'none', 'fold': True}, dev_bound=1))
     for cls_name, spec in V.VARIANTS.items():
         if spec[7] == 'bring_in':
             out.append(_j('stud-opening-rule', kind='bring-in', cls=cls_name))
@@ -241,7 +248,11 @@ def run_job(job):
         return run_split(job)
     spec = table_spec(job['cls'], 2, 4)
     mon = BettingMonitor('C11', spec=spec)
-    r, ctx = sx.run(job, [mon, ErrorsMonitor('C11', ('fold', 'check_or_call', 'post_bring_in', 'complete_bet_or_raise_to'))],
+    from ..refs.dealing import DealingMonitor
+    # the dealing protocol of the variant's streets (cards and facing per live player, board cards, burns, draws, the stud
+    # hole-to-board fallback) runs along: the static table fixes the street definitions, this fixes that they are followed
+    r, ctx = sx.run(job, [mon, DealingMonitor('C11'),
+                          ErrorsMonitor('C11', ('fold', 'check_or_call', 'post_bring_in', 'complete_bet_or_raise_to'))],
                     validated='decisions_compared')
     for v in r['violations']:
         v['sig'] = v['sig'] + '|' + job['cls'] if isinstance(v['sig'], str) else tuple(v['sig']) + (job['cls'],)
